@@ -8,6 +8,9 @@ import subprocess, sys
 sys.path.insert(0, "/verif/tools")
 from checks_config import CHECKS, COMMON_SRCS
 seen = set()
+# all harness objects of the sanitizer tree first, in parallel; the per-binary calls below then only link
+allsrcs = sorted({s for cfg in CHECKS.values() for spec in cfg["bins"] if spec["quick"].get("tree", "san") == "san" for s in spec["srcs"]} | set(COMMON_SRCS))
+subprocess.check_call(["/verif/tools/build_harness.sh", "san", "--objects-only"] + allsrcs, cwd="/verif")
 for pid, cfg in sorted(CHECKS.items()):
     for spec in cfg["bins"]:
         for tier in ("quick",):
